@@ -533,11 +533,25 @@ pub fn check_docs(docs: &BTreeMap<(Vec<u8>, String), Expect>, add: &mut dyn FnMu
         // (b) flute's own receiver reads the same instance: metadata handed to the writer builder. Twice: the
         // object's first packet carries EXT_FTI / EXT_CENC, or nothing (the FEC OTI and the encoding then come
         // from the FDT alone)
-        for inband in [true, false] {
+        // ... and once more with the instance gzip-compressed and cut into source blocks of two 64-byte symbols
+        // (a compressed instance longer than one source block)
+        for (inband, compressed_blocks) in [(true, false), (false, false), (false, true)] {
         let mon = Mon::new(false);
         let mut rx = flute::receiver::MultiReceiver::new(mon.builder(), Some(recv_config(true)), false);
         let now = at_ms(exp.publish_ms);
-        for p in crate::fdtxml::fdt_packets(TSI, 77, xml, 16384, None, None) {
+        let fdt_pk = if compressed_blocks {
+            use std::io::Write;
+            let mut enc = flate2::write::GzEncoder::new(Vec::new(), flate2::Compression::default());
+            enc.write_all(xml).unwrap();
+            let z = enc.finish().unwrap();
+            crate::fdtxml::FDT_B.with(|c| c.set(2));
+            let pk = crate::fdtxml::fdt_packets(TSI, 77, &z, 64, None, Some(3));
+            crate::fdtxml::FDT_B.with(|c| c.set(64));
+            pk
+        } else {
+            crate::fdtxml::fdt_packets(TSI, 77, xml, 16384, None, None)
+        };
+        for p in fdt_pk {
             let _ = rx.push(&endpoint(), &p, now);
         }
         for (k, toi) in &exp.files {
